@@ -312,7 +312,19 @@ func c17RunScenario(r *evid.Run, st *Stats, ops []c17Op, sc c17Scenario, bound i
 		}
 		return "ok"
 	}
+	// (a) every interleaving, without preemption bound, at synchronisation operations and at the accesses
+	// on which threads conflict (learned to a fixpoint) - a partial-order reduced full exploration;
+	// (b) brute force over ALL instrumented accesses up to the preemption bound.
+	rs, rounds, learned := sched.ExploreReduced(mk, attachHook, sched.Options{Bound: -1, Deadline: dl, MaxExecs: 200000}, check)
+	agg.Outcomes["reduced-schedules"] += rs.Schedules
+	agg.Outcomes["reduced-rounds"] += int64(rounds)
+	agg.Outcomes["reduced-conflict-addresses"] += int64(learned)
+	if !rs.Exhaustive {
+		agg.Outcomes["reduced-capped-scenarios"]++
+	}
 	ss := sched.Explore(mk, attachHook, sched.Options{Bound: bound, Deadline: dl}, check)
+	agg.Schedules += rs.Schedules
+	agg.VisiblePoints += rs.VisiblePoints
 	agg.Schedules += ss.Schedules
 	agg.VisiblePoints += ss.VisiblePoints
 	agg.Stores += ss.Stores
@@ -412,6 +424,10 @@ func c17Worker(r *evid.Run, w, n int) {
 	}
 	oc := map[string]int64{}
 	for k, v := range agg.Outcomes {
+		if strings.HasPrefix(k, "reduced-") {
+			r.Add(strings.ReplaceAll(k, "-", "_"), v)
+			continue
+		}
 		oc["schedule:"+k] = v
 	}
 	r.Set("schedule_outcomes", oc)
@@ -546,7 +562,7 @@ func init() {
 			appendNote(r, "caps_hit", fmt.Sprintf("%d of %d scenarios completed before the internal deadline", r.Get("scenarios_completed"), len(scs)))
 		}
 		bound := map[bool]string{false: "1 (2 for pairs within an 8-operation core)", true: "2 (3 for pairs within an 11-operation core; 2 for triples)"}[th]
-		r.Set("rule", fmt.Sprintf("controlled cooperative scheduler over the instrumented build: %d operations on shared fixtures (setter-built, decoded, invalid and extension claims-sets, decoded and signing Evidence) and on private objects; every unordered pair of operations including each operation with itself (%d scenarios%s) run as 2-3 threads; ALL interleavings at the instrumented stores / package-level accesses / sync operations with at most %s preemptions; per schedule: no write-write or read-write race without happens-before, no store into a shared fixture, no package-level write, each thread's result equals its sequential result, deep snapshots of all fixtures and of the register unchanged, no deadlock; states = scenarios, evaluations = schedules", len(ops), len(ops)*(len(ops)+1)/2, map[bool]string{false: "", true: " + 120 triples over an 8-operation core"}[th], bound))
+		r.Set("rule", fmt.Sprintf("controlled cooperative scheduler over the instrumented build: %d operations on shared fixtures (setter-built, decoded, invalid and extension claims-sets, decoded and signing Evidence) and on private objects; every unordered pair of operations including each operation with itself (%d scenarios%s) run as 2-3 threads; (a) ALL interleavings, no preemption bound, at sync operations and at accesses on which threads conflict (conflict set learned to a fixpoint; accesses that never conflict commute), (b) ALL interleavings at every instrumented store / package-level access / map access with at most %s preemptions; per schedule: no write-write or read-write race without happens-before, no store into a shared fixture, no package-level write, each thread's result equals its sequential result, deep snapshots of all fixtures and of the register unchanged, no deadlock; states = scenarios, evaluations = schedules", len(ops), len(ops)*(len(ops)+1)/2, map[bool]string{false: "", true: " + 120 triples over an 8-operation core"}[th], bound))
 		r.Set("distinct_nontrivial", max64(r.Get("schedules")-1, 0))
 		r.Set("bounds", map[string]any{"threads": "2 (pairs), 3 (triples, thorough)", "preemption_bound": bound, "operations": len(ops), "scenarios": len(scs)})
 		var names []string
